@@ -9,7 +9,8 @@ for p in sorted(glob.glob(os.path.join(ROOT, "seeded", "*", "meta.json"))):
     c = m.get("confirmed", {})
     lines = [l for l in c.get("check_lines", []) if l.startswith("VIOLATION")]
     classes = sorted({x for l in lines for x in l.split("classes=")[-1].split(",") if "classes=" in l})
-    det = ("`./check %s`: %s" % (m["breaks_property"], ", ".join(classes[:5]))) if c.get("detected") else "**missed**"
+    det = ("`./check %s`: %s" % (m["breaks_property"], ", ".join(classes[:5]))) if c.get("detected") else (
+        "quick tier: only sometimes; **thorough tier**: yes" if m.get("thorough_tier") else "**missed**")
     if m.get("also_caught_by"):
         det += "; also " + m["also_caught_by"]
     print("| %s | %s | %s | %s | %s |" % (m["id"], m["breaks_property"], m.get("what_it_changes", ""), m.get("needs_to_manifest", ""), det))
